@@ -72,6 +72,21 @@ def getBackend (t : Table) (scheme host url : String) : Option Backend :=
   | none => none
   | some es => es.find? (entryMatches scheme url)
 
+/-- A lookup as tokenised by the harness with net/url only: scheme and host after the default
+port was dropped, the url text with a trailing slash, and whether the decoded path has a "." or
+".." segment. -/
+structure Probe where
+  scheme : String
+  host : String
+  url : String
+  dots : Bool := false
+  deriving DecidableEq, Repr
+
+/-- `BackendConfiguration.GetBackend`: urls with dot segments are refused before the storage is asked. -/
+def lookup (t : Table) (p : Probe) : Option Backend :=
+  if Generated.Backends.lookupRefusesDotSegments && p.dots then none
+  else getBackend t p.scheme p.host p.url
+
 /-! ### reading a static configuration: `getConfiguredBackendIDs`, `getConfiguredHosts` -/
 
 structure Sec where
